@@ -2,6 +2,8 @@ package props
 
 import (
 	"fmt"
+	"go/constant"
+	"go/token"
 	"sort"
 	"strings"
 
@@ -21,6 +23,40 @@ type treeOracle struct {
 	keyOf   func(a, b pred.Val) (string, bool)    // canonical atom key; ok=false: not an admissible atom
 	unknown string
 	refused string
+	// domain of an atom (nil: not known here). An atom with the two-valued domain {0,1} stands for equal / not equal
+	// (or, against the constant 0, for zero / positive): it cannot answer <, <=, >, >= against anything else
+	domain func(key string) []int
+}
+
+func (o *treeOracle) CmpOp(op token.Token, a, b pred.Val) (int, bool) {
+	ordering := op == token.LSS || op == token.LEQ || op == token.GTR || op == token.GEQ
+	if ordering && o.domain != nil {
+		handled := false
+		if o.fixed != nil {
+			_, _, handled = o.fixed(a, b)
+		}
+		if k, ok := o.keyOf(a, b); ok && !handled {
+			k = strings.TrimPrefix(strings.TrimPrefix(k, "~"), "!")
+			d := o.domain(k)
+			three := false
+			for _, v := range d {
+				if v < 0 {
+					three = true
+				}
+			}
+			zero := func(v pred.Val) bool {
+				c, ok := v.(pred.Const)
+				return ok && c.V != nil && c.V.Kind() == constant.Int && constant.Sign(c.V) == 0
+			}
+			if !three && !zero(a) && !zero(b) {
+				if o.refused == "" {
+					o.refused = fmt.Sprintf("%v %s %v is an ordering test, the atom %s is tabulated as equal / not equal only", a, op, b, k)
+				}
+				return 0, false
+			}
+		}
+	}
+	return o.Cmp(a, b)
 }
 
 func (o *treeOracle) Cmp(a, b pred.Val) (int, bool) {
@@ -113,7 +149,7 @@ func extractTreeFull(prog *ssa.Program, fn *ssa.Function, mkArgs func() []pred.V
 		if len(leaves) > maxLeaves {
 			return fmt.Errorf("more than %d abstract valuations", maxLeaves)
 		}
-		o := &treeOracle{assign: assign, fixed: fixed, keyOf: keyOf}
+		o := &treeOracle{assign: assign, fixed: fixed, keyOf: keyOf, domain: domain}
 		ev := &pred.Evaluator{Prog: prog, Oracle: o, Summaries: sums, GlobalInit: globals, Fallback: fallback}
 		out, err := ev.Eval(fn, mkArgs())
 		if err != nil && o.unknown != "" {
